@@ -64,7 +64,7 @@ HdrShapes == <<
   <<H("x-a", "X-A", <<"1">>), H("X-A", "X-A", <<"2">>), H("x-both", "X-Both", <<"hb">>), H("x-a", "X-A", <<"3", "1">>),
     H("x-none", "X-None", <<>>)>>,
   <<CT("application/grpc-web+proto"), H("grpc-status", "Grpc-Status", <<"9">>), H("grpc-message", "Grpc-Message", <<"a, b;c">>),
-    H("vary", "Vary", <<"X-Extra">>)>>
+    H("vary", "Vary", <<"X-Extra">>), H("date", "Date", <<"Tue, 02 Jan 2024 03:04:05 GMT">>)>>   \* a given Date must be sent as given
 >>
 TrlShapes == <<
   <<>>,
